@@ -1066,6 +1066,10 @@ pub fn run_history(cfg: &HistCfg) -> HistResult {
                         continue;
                     }
                     let dir = crate::conc::direction(&pre, &world, (h.lock, h.class), (r.id, r.class));
+                    if dir.ends_with("-new") {
+                        // an element that is not part of a model (removed earlier): not tracked
+                        continue;
+                    }
                     let e = format!("{}: {:?}-{} -> {:?}-{} [{}]", op.k.name(), h.class, crate::conc::mode_s(h.mode), r.class, crate::conc::mode_s(r.mode), dir);
                     if !op_edges.contains(&e) {
                         op_edges.push(e.clone());
